@@ -157,6 +157,7 @@ class ProblemParser:
             name=function_name,
             signature=fluent_signature,
             repeating_variables=repeating_items,
+            arguments=fluent_signature_items,
         )
 
     def parse_grounded_predicate(
